@@ -1,6 +1,7 @@
 """C02 — equality, ordering and hashing of package versions and atoms agree (structural clauses)."""
 import ast
 
+from ..core import generic as G
 from ..core import astutil as A
 from ..core import match as M
 from ..core.eqhash import Engine, eq_true_paths
@@ -196,6 +197,15 @@ def run(ctx):
               f"CPV.__lt__ reads {sorted(lt_reads)} but equality decides on {sorted(main)}")
     ctx.floor("R4", 30)
 
+    # ---- R5 ==, ordering and hash are functions of the operands: no writes to shared objects ---------------------
+    specs = [("pkgcore.ebuild.cpv", "ver_cmp", (), "")]
+    for modname, cname in (("pkgcore.ebuild.cpv", "CPV"), ("pkgcore.ebuild.cpv", "Revision"), ("pkgcore.ebuild.atom", "atom")):
+        K2 = P.cls(modname, cname)
+        for name in ("__eq__", "__ne__", "__lt__", "__le__", "__gt__", "__ge__", "__hash__", "__cmp__"):
+            if name in K2.methods:
+                specs.append((modname, K2.methods[name].qual, (), ""))
+    G.pure(ctx, "R5", [(m, q, a, "comparison / hashing that edits shared data makes the six operators disagree between calls") for m, q, a, _ in specs])
+    ctx.floor("R5", 8)
 
 MUTANTS = [
     {"name": "atom-eq-drops-subslot", "file": "src/pkgcore/ebuild/atom.py", "old": '        "slot",\n        "subslot",\n        "slot_operator",\n        "repo_id",\n    )\n\n    klass.inject', "new": '        "slot",\n        "slot_operator",\n        "repo_id",\n    )\n\n    klass.inject', "rule": "R2"},
@@ -210,4 +220,9 @@ MUTANTS += [
     {"name": "cmp-lossy-slot-operator", "file": "src/pkgcore/ebuild/atom.py", "old": "c = cmp(f(self.slot_operator), f(other.slot_operator))", "new": "c = cmp(self.slot_operator == '=', other.slot_operator == '=')", "rule": "R3"},
     {"name": "cpvstr-strip-zero", "file": "src/pkgcore/ebuild/cpv.py", "old": "-r{int(rev)}", "new": "-r{rev.strip('0')}", "rule": "R1"},
 ]
-TWINS = []
+MUTANTS += [
+    {"name": "split-memoised-in-module-dict", "file": "src/pkgcore/ebuild/cpv.py", "old": '        ver_parts1 = parts1[0].split(".")\n', "new": '        ver_parts1 = suffix_value.setdefault(parts1[0], parts1[0].split("."))\n', "rule": "R5"},
+]
+TWINS = [
+    {"name": "split-copied-from-memo", "file": "src/pkgcore/ebuild/cpv.py", "old": '        ver_parts1 = parts1[0].split(".")\n', "new": '        ver_parts1 = list(suffix_value.get(parts1[0], parts1[0].split(".")))\n'},
+]
